@@ -60,7 +60,7 @@ CHECKS = {
    text="Every control-field value of add/sub immediate/shifted/extended, MOV aliases, all load/store addressing modes incl. pairs, literal, acquire/release and SIMD&FP register forms, all branch kinds; register fields over {0,1,2,30,31} with aliasing; boundary immediates; boundary values squared, all 16 NZCV valuations for conditional branches, both data endiannesses; X0-X30, SP, NZCV, V0-V31, memory, next PC compared (28 k accepted words, 0.95 M states in quick). Values outside the alphabets are not covered.",
    note="Trusted: harness A64 reference interpreter (AddWithCarry, ShiftReg, ExtendReg, DecodeBitMasks), refil. CONSTRAINED UNPREDICTABLE forms skipped; accepted words the reference does not model are counted."),
  "C19": dict(level="exploration", sec="3/C19", technique="exhaustive lattice of abstract ELF images emitted by an independent ELF writer, loaded at several bases; oracle = the abstract description plus the base-0/base-B differential",
-   text="All combinations of 7 class/endianness/machine targets x segment layouts (vaddr, filesz, memsz>filesz, 4 permission sets, second segment, interleaved non-load headers) x symbol sets (defined/undefined/zero-valued functions, objects, duplicates across symtab/dynsym, a PLT relocation) x entry choices x user entries x 3 bases: exact byte/permission/unmapped image, architecture, endianness, function-entry set, and uniform rebasing of sections, entries, symbols and program entry. ElfLinker (EM_386): 5 topologies of {main, libA.so, libB.so} x every assignment of {none, RELATIVE, {GLOB_DAT, JMP_SLOT, R_386_32} x every symbol of the link} to the relocation slots (1 per object, thorough 2/2/1), objects written to scratch files: every relocated word = base(definer)+value, every other byte = union of the objects' images. MIPS relocation processing and symbol interposition order are not covered.",
+   text="All combinations of 7 class/endianness/machine targets x segment layouts (vaddr, filesz, memsz>filesz, 4 permission sets, second segment, interleaved non-load headers) x symbol sets (defined/undefined/zero-valued functions, objects, duplicates across symtab/dynsym, a PLT relocation) x entry choices x user entries x 3 bases: exact byte/permission/unmapped image, architecture, endianness, function-entry set, and uniform rebasing of sections, entries, symbols and program entry. ElfLinker (EM_386; EM_MIPS big and little endian with GOT entries and R_MIPS_REL32): 5 topologies of {main, libA.so, libB.so} x every assignment of {none, RELATIVE, {GLOB_DAT, JMP_SLOT, R_386_32} x every symbol of the link} to the relocation slots (1 per object, thorough 2/2/1), objects written to scratch files: every relocated word = base(definer)+value, every other byte = union of the objects' images. Symbol interposition order is not covered.",
    note="Trusted: harness ELF writer (independent of goblin). A link that returns an error is counted, not judged."),
 }
 NA = []
